@@ -597,6 +597,9 @@ func indexByte(s string, b byte) int {
 type okTransport struct{}
 
 func (okTransport) RoundTrip(req *http.Request) (*http.Response, error) {
+	if resp, ok := sessionServerReply(req); ok {
+		return resp, nil // the server side's hasJoined query (server.go)
+	}
 	return &http.Response{StatusCode: 204, Status: "No Content", Body: io.NopCloser(strings.NewReader("")), Header: http.Header{}, Request: req}, nil
 }
 
